@@ -1,20 +1,4 @@
 //! ad-hoc probes (not part of any check)
-use engeom::geom3::{Iso3, IsoExtensions3, Point3, Vector3};
-use engeom::common::svd_basis::{iso3_from_basis, iso3_from_xyo};
 pub fn run() {
-    let o = Point3::new(0.0, 0.0, 0.0);
-    let (x, y, z) = (Vector3::x(), Vector3::y(), Vector3::z());
-    let t = Iso3::try_from_basis_xy(&(-x), &(-y), None).unwrap();
-    println!("try_from_basis_xy(-x,-y): rot {:?}", t.rotation.to_rotation_matrix());
-    let t = Iso3::try_from_basis_xy(&(-x), &(y), None).unwrap();
-    println!("try_from_basis_xy(-x,y): rot {:?}", t.rotation.to_rotation_matrix());
-    let t = Iso3::try_from_basis_yz(&(-y), &(z), None).unwrap();
-    println!("try_from_basis_yz(-y,z): rot {:?}", t.rotation.to_rotation_matrix());
-    let t = iso3_from_basis(&[-x, -y, z], &o);
-    println!("iso3_from_basis(-x,-y,z): rot {:?}  maps -x to {:?}", t.rotation.to_rotation_matrix(), t * (-x));
-    let t = iso3_from_xyo(&engeom::geom3::UnitVec3::new_normalize(-x), &engeom::geom3::UnitVec3::new_normalize(-y), &o);
-    println!("iso3_from_xyo(-x,-y): rot {:?} maps -x to {:?}", t.rotation.to_rotation_matrix(), t * (-x));
-    let h = (0.5f64).sqrt();
-    let t = Iso3::try_from_basis_xy(&Vector3::new(0.0, 1.0, 0.0), &Vector3::new(1.0, 0.0, 0.0), None).unwrap();
-    println!("try_from_basis_xy(y,x) (half turn about (1,1,0)): rot {:?} {}", t.rotation.to_rotation_matrix(), h);
+    crate::c10::probe();
 }
